@@ -96,6 +96,22 @@ def check(ctx):
 
     ctx.clause = "2-increment-on-every-path"
 
+    # the constructor resets the pair too (SessionHandler.__init__ -> reset): an instance created anywhere but once at import
+    # time restarts the counter in a running process, so ids generated in the same second repeat
+    ini_ = sh.methods.get("__init__")
+    ctor_resets = ini_ is not None and any(call_name(c).endswith(".reset") or call_name(c) == "reset" for c in fn_calls(ini_))
+    if ctor_resets:
+        inst = []
+        for fi_ in repo.funcs.values():
+            for c in fn_calls(fi_.node):
+                if call_name(c) in ("SessionHandler", "_internal_utils.SessionHandler") and fi_.cls is not sh:
+                    inst.append((fi_, c))
+        ctx.decide(not inst, "R-DOM/reset", f"{sh.qual}.__init__", sh.where(ini_),
+                   "no function instantiates SessionHandler (its constructor resets the process-wide counter)",
+                   f"SessionHandler is instantiated in {[f.qual for f, _ in inst]}: its constructor calls reset(), which puts the counter "
+                   f"back to 0 and re-reads the clock - two generations in the same second then yield the same <init>;<id> pair, and every "
+                   f"id generated afterwards repeats an earlier one", key="ctor_reset")
+
     def must_increment(fname, depth=0):
         fn = sh.methods[fname]
         cfg = make_cfg(repo, fn)
